@@ -524,7 +524,9 @@ def label(c, m):
             labs.append("C13-try-outside-return")
         if "%" in ex_ser(c["expr"]):
             labs.append("C13-modulo-class")
-        labs.append("C13-long-payload-binding-range")      # Ok value outside int
+        v, _, _ = py_eval3(c["expr"], c["a"], c["b"])
+        if v is not None and not -2 ** 31 <= v < 2 ** 31:
+            labs.append("C13-long-payload-binding-range")
     return labs
 
 
@@ -697,17 +699,18 @@ AB = [(7, 2), (7, 0), (0, 5), (-7, 2), (1, 3), (5, -1), (2147483647, 1), (-21474
 
 
 def gen_try_exhaustive(thorough):
-    """(T1) every atom and every binary expression over the atoms, under try and checked."""
+    """(T1) every atom and every binary expression over the atoms, under try and checked (quick tier: evaluations
+    that succeed alternate between the two keywords, failing ones run under both)."""
     exprs = [a for a in ATOMS] + [[op, x, y] for op in OPS for x in ATOMS for y in ATOMS]
-    k = 0
-    for e in exprs:
-        for (a, b) in (AB if thorough else AB[:4]):
+    for ei, e in enumerate(exprs):
+        for ai, (a, b) in enumerate(AB if thorough else AB[:4]):
             v, m = py_eval(e, a, b)
             if m >= 2 ** 62:
                 continue
             for chk in (False, True):
+                if not thorough and v is not None and chk != ((ei + ai) % 2 == 1):
+                    continue
                 for ctx in (("ret", "decl", "void", "main") if thorough else ("ret",)):
-                    k += 1
                     yield {"fam": "T", "checked": chk, "ctx": ctx, "a": a, "b": b, "expr": e}
 
 
@@ -863,7 +866,7 @@ def build_cases(seed, thorough):
     add(gen_chains(seed, 5 if thorough else 4), "Q-chains-exhaustive")
     add(gen_chain_payloads(), "Q-payload-sweep")
     add(gen_try_exhaustive(thorough), "T-expressions-exhaustive")
-    nr = 30000 if thorough else 1200
+    nr = 120000 if thorough else 1200
     for k in range(nr):
         rng = rng_for(seed, "c13-rand", k)
         safe = k % 2 == 0
@@ -938,7 +941,7 @@ def run(rep):
             bad.append((c, o, m, i))
 
     # classify_runtime_error / build_result_err against the model, byte for byte
-    msgs = gen_messages(seed, 200000 if thorough else 20000)
+    msgs = gen_messages(seed, 500000 if thorough else 20000)
     cbad, cclasses = run_classify(leaf, msgs, rep)
 
     j1 = next((j for j, o in enumerate(origin) if o == "A-transports-exhaustive"), 0) + 37
